@@ -269,7 +269,10 @@ func registerTowers() {
 	}
 }
 
+var allTowers []*towerType
+
 func registerTower(tt *towerType) {
+	allTowers = append(allTowers, tt)
 	name := fmt.Sprintf("T/%s/%s", tt.curve, tt.typ.Name())
 	register(&op{
 		name: name,
